@@ -21,7 +21,7 @@ SPEC = {
     "assumptions": ["mass-difference field (dd) kept 0: the property names M  ISO and D/T as the isotope encodings", "coordinates representable in F10.4", "S  SKP skip-lines not generated"],
     "monitors_required": ["c08_v2000_vs_model", "c08_v2000_vs_v3000", "c08_string_compare"],
     "required_obs": {"quick": ["entries_per_line/8", "entries_per_line/3", "encoding/codes", "encoding/lines", "encoding/stale", "dt_with_foreign_iso", "unrelated", "atom_list_lines",
-                               "cov_three_digit_indices", "cov_rad_only_lines_with_codes", "cov_chg_only_lines_with_radical_codes"]},
+                               "cov_three_digit_indices", "cov_isotopologue_history", "cov_identical_atom_lines_in_one_file", "cov_rad_only_lines_with_codes", "cov_chg_only_lines_with_radical_codes"]},
     "watchdog_s": {"quick": 900, "thorough": 5400},
 }
 PLAN = {"quick": {"cases": 5000, "big": 40}, "thorough": {"cases": 60000, "big": 400}}
@@ -66,6 +66,10 @@ def gen_mol(rng, big=False):
 
 
 def run_case(ctx, case):
+    return common.case_guard(ctx, case, _run_case)
+
+
+def _run_case(ctx, case):
     import tucan.io.molfile_reader as mr
     mol = Mol.from_json(case["mol"])
     rng = random.Random(case["vseed"])
@@ -148,6 +152,25 @@ def run(ctx):
     for k in range(common.share(ctx, plan["cases"])):
         mol = gen_mol(rng)
         run_case(ctx, {"mol": mol.to_json(), "vseed": f"{ctx.seed}/{ctx.shard}/{k}"})
+    # call histories over one drawing: isotopologues / charge states of ONE skeleton with identical coordinates read one after the other
+    # (label set 1, no labels, label set 2), and drawings without coordinates (all atom lines of one element textually identical)
+    for k in range(common.share(ctx, plan["cases"] // 8)):
+        base = gen_mol(rng)
+        if rng.random() < 0.5:
+            for a in base.atoms:
+                a.x = a.y = a.z = 0.0
+            ctx.count("cov_identical_atom_lines_in_one_file")
+        for step in range(3):
+            m = base.copy()
+            for a in m.atoms:
+                if step == 1:
+                    a.chg = a.rad = a.mass = 0
+                elif step == 2:
+                    a.chg = rng.choice([0, 0, 1, -1])
+                    a.rad = rng.choice([0, 0, 2])
+                    a.mass = rng.choice([0, 0, 13 if a.sym != "H" else 2])
+            run_case(ctx, {"mol": m.to_json(), "vseed": f"{ctx.seed}/{ctx.shard}/h{k}/{step}", "encoding": rng.choice(["lines", "codes", "stale"])})
+        ctx.count("cov_isotopologue_history")
     for k in range(common.share(ctx, plan["big"])):
         mol = gen_mol(rng, big=True)
         run_case(ctx, {"mol": mol.to_json(), "vseed": f"{ctx.seed}/{ctx.shard}/b{k}"})
